@@ -27,6 +27,9 @@ def run(P, R, L):
     R.clause("PAIR-12", "the two-level iterator's (data block iterator, handle of the loaded block) pair is always written together (a stale handle makes "
              "init_data_block skip loading the block)")
     K.pair12_file_level_pairs(P, R, L, only={"tables::table::TwoLevelIterator"})
+    R.clause("SRC-3", "a level iterator opens the file the search over the whole file list finds for the seek target (first / last / neighbouring file for the other movements)")
+    R.clause("WRAP-1", "a wrapper iterator (CachingIterator, FilesEntryIterator, TwoLevelIterator, DatabaseIterator) repositions its child on every seek and steps it on every next / prev; "
+             "a shortcut may trust the cached position only behind a test of its own validity")
     K.bundle_readpath(P, R, L)
     K.bundle_retention(P, R, L)
     K.bundle_liveness(P, R, L)
